@@ -10,11 +10,13 @@
   "The state reported by a track handle is always one of the five track states and querying it never
   panics" is `C12_state_decodable` (all reachable states; since kira fix "track waiting on a dropped
   clock stays paused": `C12_missing_clock_leaves_paused`).
+  "Dropping the handle of a persisting track lets its sounds finish" is `C12_removal_rule` /
+  `C12_removed_when_partial` (pending sounds count since kira fix "persisting track was removed with a
+  sound still waiting to be added": `C12_pending_sound_kept`).
   One clause of the property is FALSE of the current code and is proved false here:
-  * "dropping the handle of a persisting track lets its sounds finish" and "a track is never removed
-    while a descendant is alive" ignore resources still in the new-resource rings:
-    `C12_pending_sound_lost`, `C12_pending_child_lost`; the rules that do hold are
-    `C12_removal_rule` and `C12_removed_when_partial`.
+  * "a track is never removed while a descendant is alive" ignores sub-tracks still in the
+    new-resource ring: `C12_pending_child_lost`; the rules that do hold are `C12_removal_rule` and
+    `C12_removed_when_partial`.
 -/
 import KiraModel.Proofs.TrackLifeLemmas
 
@@ -76,13 +78,15 @@ theorem C12_resume_continues_probe (t t' : Trk α (PSnd α) (PFx α) Unit) (d : 
   rw [(C12_resume_continues probeComps d t t' h).2.2.1]
 
 /-- **Removal rule.**  `should_be_removed` holds iff the handle was dropped, and (the track does not
-    persist or it has no inserted sounds), and every inserted sub-track is itself removable; hence a
+    persist or it has no sound at all: none inserted, none waiting in the new-resource ring), and every
+    inserted sub-track is itself removable; hence a
     removable track has only removable inserted descendants, all of whose handles were dropped — a track
     is never removed while an *inserted* descendant is not removable.  At `on_start_processing` exactly
     the removable tracks of an arena disappear (ids of the survivors, in order). -/
 theorem C12_removal_rule (d : TrkData α S E P) (children pending : List (Trk α S E P)) :
     (Trk.shouldBeRemoved (.node d children pending) = true
-        ↔ d.marked = true ∧ (d.persist = true → d.sounds = []) ∧ ∀ c ∈ children, Trk.shouldBeRemoved c = true)
+        ↔ d.marked = true ∧ (d.persist = true → d.sounds = [] ∧ d.pendingSounds = [])
+            ∧ ∀ c ∈ children, Trk.shouldBeRemoved c = true)
       ∧ (Trk.shouldBeRemoved (.node d children pending) = true →
           ∀ x ∈ Trk.descendants (.node d children pending), Trk.shouldBeRemoved x = true ∧ x.data.marked = true)
       ∧ (Trk.onStartKept C children).map (·.data.id)
@@ -100,32 +104,47 @@ theorem C12_removed_when (m : Mixer α S E P) :
   simp [Mixer.onStart, Trk.onStartList_ids, Trk.onStartKept_ids, List.map_reverse]
 
 /-- Corollaries for a track without inserted sub-tracks.  Not persisting: removable iff its handle was
-    dropped (so it goes at the next callback).  Persisting: removable iff dropped and no inserted sound is
-    left — and at each `on_start_processing` the sound arena becomes "pending sounds (newest first), then
-    the unfinished ones", so with nothing pending it empties exactly when the last sound has finished and
-    the track goes at the callback after that.
-    FULL STATEMENT ("…keeps playing until its sounds finish") IS FALSE: the rule looks only at *inserted*
-    sounds / sub-tracks; see `C12_pending_sound_lost`, `C12_pending_child_lost`. -/
+    dropped (so it goes at the next callback).  Persisting: removable iff dropped and no sound is left,
+    inserted or pending — and at each `on_start_processing` the sound arena becomes "pending sounds (newest
+    first), then the unfinished ones", so it empties exactly when the last sound has finished and the track
+    goes at the callback after that: a dropped persisting track keeps playing until its sounds finish.
+    (For sub-tracks the clause "…while a descendant is alive" is still false: `C12_pending_child_lost`.) -/
 theorem C12_removed_when_partial (d : TrkData α S E P) (pending : List (Trk α S E P)) :
     (d.persist = false → (Trk.shouldBeRemoved (.node d [] pending) = true ↔ d.marked = true))
-      ∧ (d.persist = true → (Trk.shouldBeRemoved (.node d [] pending) = true ↔ d.marked = true ∧ d.sounds = []))
+      ∧ (d.persist = true →
+          (Trk.shouldBeRemoved (.node d [] pending) = true ↔ d.marked = true ∧ d.sounds = [] ∧ d.pendingSounds = []))
+      ∧ (d.persist = true → (d.sounds ≠ [] ∨ d.pendingSounds ≠ []) → ∀ children,
+          Trk.shouldBeRemoved (.node d children pending) = false)
       ∧ (Trk.onStart C (.node d [] pending)).data.sounds.length
           = d.pendingSounds.length + (d.sounds.filter (fun s => !C.sndFinished s)).length := by
-  refine ⟨?_, ?_, ?_⟩
+  refine ⟨?_, ?_, ?_, ?_⟩
   · intro hp; rw [Trk.shouldBeRemoved_iff]; simp [hp]
   · intro hp; rw [Trk.shouldBeRemoved_iff]; simp [hp]
+  · intro hp hs children
+    cases hr : Trk.shouldBeRemoved (.node d children pending) with
+    | false => rfl
+    | true =>
+      have := ((Trk.shouldBeRemoved_iff d children pending).mp hr).2.1 hp
+      rcases hs with hs | hs
+      · exact absurd this.1 hs
+      · exact absurd this.2 hs
   · have hs : ∀ d : TrkData α S E P, (Trk.readCommands d).sounds = d.sounds ∧ (Trk.readCommands d).pendingSounds = d.pendingSounds := by
       intro d; unfold Trk.readCommands Trk.publish; dsimp only; split <;> split <;> exact ⟨rfl, rfl⟩
     rw [Trk.onStart]; simp [Trk.data, removeAndAdd, (hs d).1, (hs d).2]
 
-/-- **Finding (b), proved of the model**: a persisting track whose handle is dropped while a sound is
-    still in its new-resource ring is removable — the sound is dropped with it, never heard. -/
-theorem C12_pending_sound_lost (s : S) :
-    ∃ t : Trk α S E P, t.data.persist = true ∧ t.data.pendingSounds = [s] ∧ Trk.shouldBeRemoved t = true :=
-  ⟨Trk.hDrop (Trk.hPlay s (Trk.build 0 (0.0 : α) [] [] true 1)),
-    by simp [Trk.hDrop, Trk.hPlay, Trk.mapData, Trk.build, Trk.data],
-    by simp [Trk.hDrop, Trk.hPlay, Trk.mapData, Trk.build, Trk.data],
-    by simp [Trk.hDrop, Trk.hPlay, Trk.mapData, Trk.build, Trk.shouldBeRemoved, Trk.anyNotRemovable]⟩
+/-- **A sound still in the ring keeps a dropped persisting track** (the history of the repaired finding
+    (b)): play a sound on a persisting track and drop the handle before the next callback — the track is
+    not removable, and `on_start_processing` inserts the sound (so it is rendered from that callback on). -/
+theorem C12_pending_sound_kept (s : S) :
+    let t : Trk α S E P := Trk.hDrop (Trk.hPlay s (Trk.build 0 (0.0 : α) [] [] true 1))
+    t.data.persist = true ∧ t.data.marked = true ∧ t.data.pendingSounds = [s]
+      ∧ Trk.shouldBeRemoved t = false ∧ (Trk.onStart C t).data.sounds = [C.sndStart s] := by
+  refine ⟨?_, ?_, ?_, ?_, ?_⟩
+  · simp [Trk.hDrop, Trk.hPlay, Trk.mapData, Trk.build, Trk.data]
+  · simp [Trk.hDrop, Trk.hPlay, Trk.mapData, Trk.build, Trk.data]
+  · simp [Trk.hDrop, Trk.hPlay, Trk.mapData, Trk.build, Trk.data]
+  · simp [Trk.hDrop, Trk.hPlay, Trk.mapData, Trk.build, Trk.shouldBeRemoved, Trk.anyNotRemovable]
+  · simp [Trk.hDrop, Trk.hPlay, Trk.mapData, Trk.build, Trk.onStart, Trk.readCommands, Trk.data, removeAndAdd]
 
 /-- **Finding (c), proved of the model**: a track whose handle is dropped while a sub-track added through
     it is still in the ring is removable although that sub-track's handle is alive (not marked). -/
